@@ -7,4 +7,4 @@ Require Import Wbxml.Model.Spec.
 Require Import Wbxml.Model.TreeBuild.
 Require Extraction.
 Require Import ExtrOcamlBasic.
-Extraction "model.ml" main_table parse_with parse bytes_of_string serialize denote denote_with unser decode decode_lang tree_from_wbxml build.
+Extraction "model.ml" main_table parse_with parse bytes_of_string serialize denote denote_with unser decode decode_lang tree_from_wbxml wbxml_tree_from_wbxml build.
